@@ -192,7 +192,10 @@ PROVED = {
  "C15": "the emitter writes the same text with and without a source map, at any position, after any earlier output (simulation over all trees); CLI and LSP "
         "code are the same text for every input; every accepted file is header ++ items' own code, so a template's code does not depend on its siblings. "
         "Determinism itself is by construction of the model (a function of the bytes) and checked on the implementation by the run.",
- "C16": "look-ups in both directions are mutually inverse under a decidable uniqueness test evaluated per file; one Add is a per-line shift.",
+ "C16": "look-ups in both directions are mutually inverse under a decidable uniqueness test evaluated per file; one Add is a per-line shift; "
+        "IN BOUNDS on the generated side for every tree: every target the emitter records, and every position inside the recorded fragment (also across line "
+        "breaks), is the end of a prefix of the generated text, hence on an existing line and within that line or at its end. The template side (lexer "
+        "columns) is checked entry by entry on the real tables: partial.",
  "C17": "diagnostics cache lemmas of the proxy model (compiler error never masked, ranges translated) over all histories.",
  "C18": "the generate model writes exactly the up-to-date outputs and touches nothing else, for every tree, flag set and history.",
  "C19": "helper contracts for every argument list.",
